@@ -55,6 +55,16 @@ func genC02(level int) []*CacheScen {
 				}
 			}
 		}
+		// Clear against two completed writes of one thread to an early and a late bucket (either order): Clear is
+		// one atomic step, it cannot drop the later write and spare the earlier one
+		for _, rel := range []KeyRel{RelLate, RelDD} {
+			for _, w := range []CIn{cSet, cGoS} {
+				for _, ini := range []int{IAbsent, ILive} {
+					add(&CacheScen{Rel: rel, NKeys: 2, Init: []int{ini, ini}, Table: TPlain, Threads: [][]CIn{{cClear}, {con(w, 0), con(w, 1)}}})
+					add(&CacheScen{Rel: rel, NKeys: 2, Init: []int{ini, ini}, Table: TPlain, Threads: [][]CIn{{cClear}, {con(w, 1), con(w, 0)}}})
+				}
+			}
+		}
 		// the remaining methods of the API (thin variants of the ones above) against a selection of partners
 		for _, a := range []CIn{{Op: CSetDefault}, {Op: CSetForever}, cGetExp, {Op: CItems}} {
 			for _, b := range []CIn{cSet, cSetTTL, cGaD, cDelExp, cGaR} {
